@@ -71,8 +71,8 @@ META = {
                 "dispatched at most once); the handler writes in FIFO order what was buffered; with Bolt the stored history is the commit order, entry k at sequence k; "
                 "the commit order is append-only and an update acknowledged before another one is committed precedes it. Tied to the code by schedule-steered runs of the "
                 "instrumented transports and of a LocalSubscriber (every schedule with <= 2 preemptions per scenario) and by handler-level histories.",
-        "design_ref": "DESIGN.md §5 C06", "note": HUB_NOTE + " Retention off in the theorems (with bounded retention the same clauses are judged on observed outcomes); for the local "
-                "transport the 'commit order' is the order of the fan-out critical sections.",
+        "design_ref": "DESIGN.md §5 C06", "note": HUB_NOTE + " Both transports, any retention size (C06_live_exactly_the_matching_suffix is stated with retention off; its "
+                "general form is C07_replay_then_live_with_retention); for the local transport the 'commit order' is the order of the fan-out critical sections.",
         "technique": "Coq proof (inductive invariant of the hub LTS over all schedules) + differential correspondence of schedule-steered transport / subscriber runs and handler-level histories evaluated in Coq",
     },
     "C07": {
@@ -80,12 +80,13 @@ META = {
                 "publishes relative to indexing + cut-off, each step of the history scan and each step of the go-live flush): what a subscriber has been sent, and what "
                 "its handler has written, is always a prefix of the ideal sequence - matching stored updates after the requested id up to the cut-off, then matching "
                 "updates committed after it - and equals it while the subscriber is live and not cut off; the ideal sequence is the matching part of the single "
-                "commit order from just after the requested id ('earliest': from the start; no or unknown id, or the local transport: from the registration point); the "
-                "scan of a snapshot that already contains later updates stops at the cut-off. Tied to the code by schedule-steered runs of the instrumented Bolt transport "
+                "commit order from just after the requested id ('earliest': from the first retained entry; no or unknown id, or the local transport: from the registration "
+                "point); the scan of a snapshot that already contains later updates stops at the cut-off; bounded retention is covered "
+                "(C07_replay_then_live_with_retention, C06_stored_order_with_retention). Tied to the code by schedule-steered runs of the instrumented Bolt transport "
                 "(restart, Last-Event-ID none / earliest / stored / unknown, publishes racing the registration) and of a LocalSubscriber, handler-level histories with "
                 "restarts and 1000+ update bursts, and replays larger than the buffer.",
-        "design_ref": "DESIGN.md §5 C07", "note": HUB_NOTE + " Partial: theorems are for retention off; bounded retention (replay starts at the oldest retained entry) is "
-                "judged on observed outcomes by Model/TransCases.v and the hub-history spec.",
+        "design_ref": "DESIGN.md §5 C07", "note": HUB_NOTE + " Both transports and any retention size (C07_replay_then_live_with_retention: the replay covers the entries "
+                "retained when the scan read the history; a requested id that was already dropped is unknown).",
         "technique": "Coq proof (inductive invariant of the hub LTS over all schedules and crash points) + differential correspondence of schedule-steered transport / subscriber runs and handler-level histories evaluated in Coq",
     },
     "C09": {
